@@ -193,6 +193,17 @@ mut2("hkl_control_lock_around_generation", ["C05", "C06"], "control", [
      "    with _gen_lock:\n        H = genhkl_base(unit_cell, \n                      spg.syscond, \n                      sintlmin, sintlmax, \n                      crystal_system=spg.crystal_system, \n                      Laue_class = spg.Laue,\n                      cell_choice = spg.cell_choice,\n                      output_stl=True)\n\n    Hall = n.zeros((0,4))", 1),
 ], note="genhkl_all serialises the traversal with a module-level lock")
 
+mut2("c20_control_semaphore_in_checks", ["C20"], "control", [
+    ("xfab/checks.py", "import numpy as np\n", "import numpy as np\nimport threading\n_check_sem = threading.BoundedSemaphore(1)\n", 1),
+    ("xfab/checks.py", "    if not np.allclose( np.dot(U.T, U), np.eye(3,3), atol=1e-6):\n        raise ValueError(\"orientation matrix U is not unitary, np.dot(U.T, U)!=np.eye(3,3)\")\n",
+     "    with _check_sem:\n        ok = np.allclose( np.dot(U.T, U), np.eye(3,3), atol=1e-6)\n    if not ok:\n        raise ValueError(\"orientation matrix U is not unitary, np.dot(U.T, U)!=np.eye(3,3)\")\n", 1),
+], note="a semaphore (built on threading.Condition) around the orthonormality test: needs the cooperative Condition of xsim.sched")
+mut2("hkl_control_semaphore_around_generation", ["C05", "C06"], "control", [
+    ("xfab/tools.py", "import warnings\n", "import warnings\nimport threading\n_gen_sem = threading.Semaphore(1)\n", 1),
+    ("xfab/tools.py", "    H = genhkl_base(unit_cell, \n                      spg.syscond, \n                      sintlmin, sintlmax, \n                      crystal_system=spg.crystal_system, \n                      Laue_class = spg.Laue,\n                      cell_choice = spg.cell_choice,\n                      output_stl=True)\n\n    Hall = n.zeros((0,4))",
+     "    with _gen_sem:\n        H = genhkl_base(unit_cell, \n                      spg.syscond, \n                      sintlmin, sintlmax, \n                      crystal_system=spg.crystal_system, \n                      Laue_class = spg.Laue,\n                      cell_choice = spg.cell_choice,\n                      output_stl=True)\n\n    Hall = n.zeros((0,4))", 1),
+], note="genhkl_all serialises the traversal with a module-level semaphore")
+
 mut("c20_control_deprecation_warning", ["C20", "C05"], "control", "xfab/tools.py",
     "    U = n.asarray( U_matrix, float)\n    if CHECKS.activated: checks._check_rotation_matrix(U)\n\n    b_mat = form_b_mat(unit_cell)",
     "    warnings.warn('the 2*pi convention of xfab.tools is deprecated, use xfab.laue', DeprecationWarning, stacklevel=2)\n    U = n.asarray( U_matrix, float)\n    if CHECKS.activated: checks._check_rotation_matrix(U)\n\n    b_mat = form_b_mat(unit_cell)",
